@@ -56,10 +56,17 @@ func crashScen(c *Ctx) {
 	if sub.Failed() || n <= 0 {
 		return
 	}
-	if n > 400 {
-		n = 400
+	// every step, or (quick tier) an evenly spaced subset of at most enum_max steps
+	max := 400
+	if v := c.Opt("enum_max", ""); v != "" {
+		max, _ = strconv.Atoi(v)
 	}
-	for i := 1; i <= n; i++ {
+	stride := 1
+	if n > max && max > 0 {
+		stride = (n + max - 1) / max
+	}
+	c.Res.Extra["crash_stride"] = int64(stride)
+	for i := 1; i <= n; i += stride {
 		sub := sim.New(sim.ReplayTape(pv), sim.ReplayTape(sv))
 		crashBody(c, sub, i, "")
 		sub.Close()
